@@ -27,6 +27,15 @@ class NoFunctionRegisteredException(Exception):
     pass
 
 
+class Stop(Exception):
+    """the StopIteration with which first() / last() / single() / dict() fail.  Inside a lambda it has to reach
+    the caller of the whole query like any other exception: a real StopIteration raised by a selector would be
+    taken by map() / filter() / takewhile() for the end of the collection and cut the result short."""
+
+
+Stop.__name__ = 'StopIteration'
+
+
 class FD(dict):
     """an immutable, hashable dict (what yaql's FrozenDict is)"""
     def __hash__(self):
@@ -92,6 +101,21 @@ def is_int(x):
     return isinstance(x, int) and not isinstance(x, bool)
 
 
+def is_num(x):
+    return isinstance(x, (int, float)) and not isinstance(x, bool)
+
+
+def has_lazy(v):
+    """is there a generator (an unconsumed lazy result of a lambda) inside?"""
+    if is_iterator(v):
+        return True
+    if isinstance(v, (tuple, list)):
+        return any(has_lazy(x) for x in v)
+    if isinstance(v, dict):
+        return any(has_lazy(x) for x in v.values())
+    return False
+
+
 def is_iterator(x):
     return hasattr(x, '__next__')
 
@@ -107,7 +131,7 @@ def is_seq(x):
 # ------------------------------------------------------------------ scalar operators
 
 def o_plus(a, b):
-    if is_int(a) and is_int(b):
+    if is_num(a) and is_num(b):
         return a + b
     if isinstance(a, str) and isinstance(b, str):
         return a + b
@@ -125,7 +149,7 @@ def o_plus(a, b):
 
 
 def o_mul(a, k):
-    if is_int(a):
+    if is_num(a):
         return a * k
     if isinstance(a, (str, tuple, list)):
         return a * k
@@ -133,7 +157,7 @@ def o_mul(a, k):
 
 
 def o_mod(a, k):
-    if is_int(a):
+    if is_num(a):
         return a % k
     raise NoMatchingFunctionException('mod')
 
@@ -143,7 +167,7 @@ def o_gt(a, b):
         return False
     if b is None:
         return True
-    if is_int(a) and is_int(b) or isinstance(a, str) and isinstance(b, str):
+    if is_num(a) and is_num(b) or isinstance(a, str) and isinstance(b, str):
         return a > b
     if isinstance(a, frozenset) and isinstance(b, frozenset):
         return a > b
@@ -155,7 +179,7 @@ def o_lt(a, b):
         return b is not None
     if b is None:
         return False
-    if is_int(a) and is_int(b) or isinstance(a, str) and isinstance(b, str):
+    if is_num(a) and is_num(b) or isinstance(a, str) and isinstance(b, str):
         return a < b
     if isinstance(a, frozenset) and isinstance(b, frozenset):
         return a < b
@@ -178,11 +202,98 @@ def o_member(x, name):
     raise NoFunctionRegisteredException(name)
 
 
+def o_half(a):
+    """`a / 2`: "floor division if both are integers, true division otherwise" """
+    if is_int(a):
+        return a // 2
+    if is_num(a):
+        return a / 2
+    raise NoMatchingFunctionException('/')
+
+
+def o_str(a):
+    """str(): null / true / false as yaql spells them, otherwise the usual text of a number or string"""
+    if a is None:
+        return 'null'
+    if a is True:
+        return 'true'
+    if a is False:
+        return 'false'
+    if is_int(a) or isinstance(a, str):
+        return str(a)
+    if isinstance(a, float):
+        return repr(a)
+    raise OOD()               # the text of a list / dict is Python's, not documented
+
+
+def o_len(a):
+    if isinstance(a, (str, tuple, list, frozenset, dict)):
+        return len(a)
+    if is_iterator(a):
+        return sum(1 for _ in a)
+    raise NoMatchingMethodException('len')
+
+
+def o_range(a):
+    if isinstance(a, int):    # (the parameter is a plain int: booleans pass)
+        return iter(range(a))
+    raise NoMatchingFunctionException('range')
+
+
+def seq_of(v):
+    """the element of a collection as the receiver of first() / where() / ...: an iterable that is not a
+    string or a dict"""
+    if isinstance(v, (tuple, list)) or is_iterator(v):
+        return iter(v)
+    if isinstance(v, frozenset):
+        if len(v) > 1:
+            raise OOD()       # iteration order of a nested set
+        return iter(v)
+    raise NoMatchingMethodException()
+
+
+def e_first(v, d):
+    for x in seq_of(v):
+        return x
+    if d:
+        return d[0]
+    raise Stop()
+
+
+def e_last(v, d):
+    r = d[0] if d else NOVAL
+    for x in seq_of(v):
+        r = x
+    if r is NOVAL:
+        raise Stop()
+    return r
+
+
+def e_single(v):
+    got = list(itertools.islice(seq_of(v), 2))
+    if len(got) != 1:
+        raise Stop()
+    return got[0]
+
+
 HOOK = None          # C14: wraps every lambda handed to a function (to count applications)
 
 
+def guarded(l, f):
+    """an element that is (or holds) a generator made by an earlier stage can be consumed once: followed
+    through lambdas that hand it on untouched, no prediction otherwise"""
+    if l[0] in ('arg', 'const'):
+        return f
+
+    def g(x):
+        if has_lazy(x):
+            raise OOD()
+        return f(x)
+    return g
+
+
 def lam(l):
-    f = _lam(l)
+    f = guarded(l, _lam(l))
     return HOOK(f) if HOOK else f
 
 
@@ -206,6 +317,32 @@ def _lam(l):
         f, g = _lam(l[1]), _lam(l[2])
         return lambda x: (f(x), g(x))
     f = _lam(l[1])
+    # lambdas on an element that is a collection itself.  where / select / take / range return a LAZY
+    # sequence: a new one at every application, consumed by whoever gets hold of it (usually the finaliser)
+    if t == 'len':
+        return lambda x: o_len(f(x))
+    if t == 'first':
+        return lambda x: e_first(f(x), l[2])
+    if t == 'last':
+        return lambda x: e_last(f(x), l[2])
+    if t == 'single':
+        return lambda x: e_single(f(x))
+    if t == 'sum':
+        return lambda x: functools.reduce(o_plus, seq_of(f(x)))
+    if t == 'where':
+        p = _lam(l[2])
+        return lambda x: filter(p, seq_of(f(x)))
+    if t == 'select':
+        g = _lam(l[2])
+        return lambda x: map(g, seq_of(f(x)))
+    if t == 'take':
+        return lambda x: itertools.islice(seq_of(f(x)), l[2])
+    if t == 'range':
+        return lambda x: o_range(f(x))
+    if t == 'str':
+        return lambda x: o_str(f(x))
+    if t == 'half':
+        return lambda x: o_half(f(x))
     k = l[2]
     if t == 'add':
         return lambda x: o_plus(f(x), k)
@@ -251,11 +388,14 @@ def _lam2(l):
     if t == 'max':
         return o_max
     if t == 'on1':
-        f = _lam(l[1])
+        f = guarded(l[1], _lam(l[1]))
         return lambda a, b: f(a)
     if t == 'on2':
-        f = _lam(l[1])
+        f = guarded(l[1], _lam(l[1]))
         return lambda a, b: f(b)
+    if t == 'plusOn':
+        f = guarded(l[1], _lam(l[1]))
+        return lambda a, b: o_plus(a, f(b))
     raise ValueError(l)
 
 
@@ -424,13 +564,13 @@ class Ref:
             return x
         if 'v' in a:
             return a['v']
-        raise StopIteration()
+        raise Stop()
 
     def single(self, o, a):
         src = it(o)
         got = list(itertools.islice(src, 2))
         if len(got) != 1:
-            raise StopIteration()
+            raise Stop()
         return got[0]
 
     def last(self, o, a):
@@ -438,7 +578,7 @@ class Ref:
         for x in it(o):
             r = x
         if r is NOVAL:
-            raise StopIteration()
+            raise Stop()
         return r
 
     def selectMany(self, o, a):
@@ -790,7 +930,7 @@ class Ref:
             if not isinstance(t, (tuple, list, str)):
                 raise TypeError('not iterable')
             if len(t) < 2:
-                raise StopIteration()
+                raise Stop()
             d[t[0]] = t[1]
         return FD(d)
 
@@ -887,7 +1027,7 @@ class Ref:
             if isinstance(x, str) and isinstance(y, str):
                 return x + y
             raise OOD()
-        if isinstance(x, tuple) and isinstance(y, tuple) or is_int(x) and is_int(y):
+        if isinstance(x, tuple) and isinstance(y, tuple) or is_num(x) and is_num(y):
             return x + y
         if isinstance(x, frozenset) and isinstance(y, frozenset):
             return DSet(x | y)
@@ -903,7 +1043,7 @@ class Ref:
     def timesInt(self, o, a):
         if isinstance(o, str):
             raise OOD()
-        if is_seq(o) or is_int(o):
+        if is_seq(o) or is_num(o):
             return o * a['n']
         raise NoMatchingFunctionException('*')
 
@@ -1100,6 +1240,37 @@ class Ref:
 REF = Ref()
 
 
+# Operations that hand the elements of their receiver on, each at most once, without hashing or comparing them and
+# without showing them to a lambda that looks inside.  When a selector of an earlier stage returned generators
+# (`select($.where(..))`), these leave them unconsumed - the finaliser consumes each exactly once.  Anything else on
+# such a receiver (hashing a generator, comparing it, handing it out twice) has no documented meaning.
+LINEAR = frozenset(
+    'where select selectMany takeWhile skipWhile indexWhere lastIndexWhere any all splitWhere toDict orderBy '
+    'orderByDescending thenBy thenByDescending skip take append enumerate concat len count first single last zip zipLongest '
+    'slice splitAt reverse toList listLit insert insertMany replace replaceMany delete deleteAll isIterable isList isDict '
+    'isSet unpack defaultIfEmpty memorize keys values items index indexDflt get dictSet dictSetMany dictSetInline attr '
+    'containsKey'.split())
+
+
+def no_lazies(o):
+    """the receiver of an operation that is not LINEAR: out of domain as soon as it delivers a generator"""
+    if is_iterator(o):
+        def gen():
+            for x in (iter(o) if isinstance(o, Memo) else o):
+                if has_lazy(x):
+                    raise OOD()
+                yield x
+        return gen()
+    if isinstance(o, Ordering):
+        return Ordering(no_lazies(o.src), o.fields)
+    if isinstance(o, View):
+        if has_lazy(o.d):
+            raise OOD()
+    elif has_lazy(o):
+        raise OOD()
+    return o
+
+
 def run_lazy(data, ops, binder=None):
     """as run_ref, but the result is handed out as it is (a lazy iterator stays unconsumed)"""
     o = data
@@ -1108,6 +1279,8 @@ def run_lazy(data, ops, binder=None):
     REF.root = o
     for op in ops:
         name = op['op']
+        if name not in LINEAR:
+            o = no_lazies(o)
         o = getattr(REF, 'in_' if name == 'in' else name)(o, op)
     return o
 
@@ -1124,8 +1297,9 @@ def finalise(o):
         r = {}
         for k, v in o.items():
             fv = finalise(v)
-            if isinstance(k, (tuple, list, frozenset, dict)):
-                raise TypeError('unhashable')
+            fk = finalise(k)            # (the key is converted as well - after the value: a generator among the keys is consumed)
+            if isinstance(fk, (tuple, list, dict)):
+                raise TypeError('unhashable')       # ... and a key that became a list cannot be a key
             r[k] = fv
         return r
     if isinstance(o, frozenset):
@@ -1142,6 +1316,9 @@ def finalise(o):
 
 # ------------------------------------------------------------------ rendering as yaql text
 
+_QUOTE = [0]         # string literals of one expression alternate between 'a' and "a" (the same value)
+
+
 def lit(v):
     if v is None:
         return 'null'
@@ -1151,7 +1328,12 @@ def lit(v):
         return 'false'
     if isinstance(v, int):
         return str(v) if v >= 0 else '(%d)' % v
+    if isinstance(v, float):
+        return repr(v) if v >= 0 and repr(v)[0] != '-' else '(%r)' % v
     if isinstance(v, str):
+        _QUOTE[0] += 1
+        if _QUOTE[0] % 2 == 0 and '"' not in v and '\\' not in v:
+            return '"' + v + '"'            # the other spelling of the same string
         return "'" + v.replace('\\', '\\\\').replace("'", "\\'") + "'"
     if isinstance(v, (tuple, list)):
         return '[' + ', '.join(lit(x) for x in v) + ']'
@@ -1184,8 +1366,23 @@ def rl(l, var='$'):
     if t == 'pair':
         return '[%s, %s]' % (rl(l[1], var), rl(l[2], var))
     a = rl(l[1], var)
-    if l[1][0] not in ('arg', 'member', 'index'):
+    if t == 'range':
+        return 'range(%s)' % a
+    if t == 'str':
+        return 'str(%s)' % a
+    if l[1][0] not in ('arg', 'member', 'index', 'len', 'first', 'last', 'single', 'sum', 'where', 'select', 'take',
+                       'range', 'str'):
         a = '(' + a + ')'
+    if t in ('len', 'single', 'sum'):
+        return '%s.%s()' % (a, t)
+    if t in ('first', 'last'):
+        return '%s.%s(%s)' % (a, t, lit(l[2][0]) if l[2] else '')
+    if t in ('where', 'select'):
+        return '%s.%s(%s)' % (a, t, rl(l[2], '$'))
+    if t == 'take':
+        return '%s.take(%s)' % (a, lit(l[2]))
+    if t == 'half':
+        return '%s / 2' % a
     k = l[2]
     if t == 'add':
         return '%s + %s' % (a, lit(k))
@@ -1206,6 +1403,8 @@ def rl(l, var='$'):
 
 def rl2(l):
     t = l[0]
+    if t == 'plusOn':
+        return '$1 + (%s)' % rl(l[1], '$2')
     return {'fst': '$1', 'snd': '$2', 'plus': '$1 + $2', 'gt': '$1 > $2', 'eq': '$1 = $2',
             'pair': '[$1, $2]', 'max': 'max($1, $2)'}.get(t) or (
         lit(l[1]) if t == 'const' else rl(l[1], '$1' if t == 'on1' else '$2'))
@@ -1360,6 +1559,7 @@ def render_op(r, a):
 
 
 def render(ops, binder=None, root='$'):
+    _QUOTE[0] = 0
     r = root
     for a in ops:
         r = render_op(r, a)
@@ -1382,6 +1582,12 @@ def lam_json(l, enc):
         return ['pair', lam_json(l[1], enc), lam_json(l[2], enc)]
     if t == 'eq':
         return ['eq', lam_json(l[1], enc), enc(l[2])]
+    if t in ('len', 'single', 'sum', 'range', 'str', 'half'):
+        return [t, lam_json(l[1], enc)]
+    if t in ('first', 'last'):
+        return [t, lam_json(l[1], enc), [enc(v) for v in l[2]]]
+    if t in ('where', 'select'):
+        return [t, lam_json(l[1], enc), lam_json(l[2], enc)]
     return [t, lam_json(l[1], enc), l[2]]
 
 
@@ -1389,7 +1595,7 @@ def lam2_json(l, enc):
     t = l[0]
     if t == 'const':
         return ['const', enc(l[1])]
-    if t in ('on1', 'on2'):
+    if t in ('on1', 'on2', 'plusOn'):
         return [t, lam_json(l[1], enc)]
     return [t]
 
